@@ -46,6 +46,7 @@ pub fn run(pid: &str) {
             if pid == "C01" {
                 // heartbeat for the watchdog: a saved input may be one that does not terminate
                 let b = v.get("hex").and_then(|h| h.as_str()).and_then(crate::bits::unhex).unwrap_or_default();
+                crate::total::ctx_from_case(0, &v);
                 crate::total::begin_case(0, &b);
             }
             for mut f in dispatch(pid, &v) {
